@@ -13,6 +13,33 @@ Theorem C19_unbuffered_channel_leaks : hs_blocked (h_run 0 [HFinish true]) = 1%n
 Proof. exact unbuffered_channel_leaks. Qed.
 Print Assumptions C19_unbuffered_channel_leaks.
 
+(* the same hand-off, for every buffer size and every interleaving: exactly one finishing attempt wins the
+   compare-and-swap on resultSent (and sends) when some attempt has a result to hand on, none otherwise; so at most one
+   value ever travels through the channel and no second sender can be left waiting behind the first *)
+Theorem C19_hedge_one_winner : forall cap tr, h_wins (h_init cap) tr = (if existsb wants tr then 1 else 0)%nat.
+Proof. exact hedge_one_winner. Qed.
+Print Assumptions C19_hedge_one_winner.
+
+Theorem C19_hedge_sent_iff_winner : forall cap tr, hs_sent (h_run cap tr) = existsb wants tr.
+Proof. exact hedge_sent_iff_winner. Qed.
+Print Assumptions C19_hedge_sent_iff_winner.
+
+(* resultCount counts every finished attempt exactly once (no attempt goroutine ends uncounted or is counted twice) *)
+Theorem C19_hedge_count_exact : forall cap tr, hs_count (h_run cap tr) = List.length (filter is_finish tr).
+Proof. exact hedge_count_exact. Qed.
+Print Assumptions C19_hedge_count_exact.
+
+(* with the buffer of one, the channel holds at most the winner's result and nothing before somebody has won *)
+Theorem C19_hedge_channel_bound : forall cap tr, (1 <= cap)%nat ->
+  (hs_chan (h_run cap tr) <= 1)%nat /\ (hs_sent (h_run cap tr) = false -> hs_chan (h_run cap tr) = 0%nat).
+Proof. exact hedge_channel_bound. Qed.
+Print Assumptions C19_hedge_channel_bound.
+
+Example C19_one_winner_nonvacuous :
+  h_wins (h_init 1) [HFinish false; HFinish true; HRecv; HFinish true] = 1%nat /\
+  hs_count (h_run 1 [HFinish false; HFinish true; HRecv; HFinish true]) = 3%nat.
+Proof. exact one_winner_nonvacuous. Qed.
+
 (* obligation discharged on every run: every go statement, timer, AfterFunc and derived context found in the
    library's sources of this run is one of the sites listed in Model/Ledger.v (each with its exit argument);
    evaluated by the kernel on the regenerated list (Corr/C18.v, CaseSites).  Non-vacuity: *)
